@@ -25,6 +25,8 @@ Pipes == 1..NPipe
 
 K(op) == OpTab[op].k
 O(op) == OpTab[op].o
+\* the calling thread is unwinding from a panic while it makes this call (Drop for Desync then uses sync_no_panic)
+Unw(op) == OpTab[op].then = "unwinding"
 
 \* Operations that run user code with exclusive access to an object
 ClosureKinds == {"desync", "sync", "try_sync", "fdesync", "fsync", "after"}
@@ -115,7 +117,9 @@ ObsRet(h, t, op, c) ==
       \* C17: after despawn returned the pool is within its maximum
       h9 == IF K(op) = "despawn" THEN Viol([h8 EXCEPT !.lowering = FALSE], h8.live > h8.maxNow, "C17:despawn") ELSE h8
       \* C05: drop returned => the value was freed exactly once
-      h10 == Viol(h9, K(op) = "drop_obj" /\ c = 0 /\ h.freed[O(op)] # 1 /\ ~HeldByPipe(h, O(op)), "C05:drop-returned-unfreed")
+      \* (an owner dropped by an unwinding thread leaves a panicked object alone: the value leaks rather than panicking again)
+      h10 == Viol(h9, K(op) = "drop_obj" /\ c = 0 /\ h.freed[O(op)] # 1 /\ ~HeldByPipe(h, O(op))
+                      /\ ~(Unw(op) /\ \E x \in h.panicOn : O(x[1]) = O(op)), "C05:drop-returned-unfreed")
   IN  h10
 
 (***************************************************************************)
